@@ -43,19 +43,13 @@ HARNESSES += [
  _ci('sliding_window', 'index::shape_sliding_window + sliding_window over the last two axes of a 4-d shape (the convnd configuration), extents 1..MAXL, window 1..3, window index symbolic'),
  _ci('expand', 'index::shape_expand + expand (dilation) on the last two axes, extents 1..MAXL, spacing 0..2, index symbolic'),
  _ci('pad_index', 'index::shape_pad + pad on a 4-d shape, extents 1..MAXL, widths 0..2, index symbolic', unwind=11),
- dict(name='conv1d_el', src='harnesses/C17_conv.c', func='h_conv1d_el', kernels=['C17_conv_el'], unwind=8, optional=True, timeout=900, mem_gb=12,
-      bounds='view::conv1d ELEMENT, constant shapes input (1,1,3) * weight (1,1,2), uint8 data + output index symbolic (294-393 s / 9.4 GB measured)',
-      quick=[], thorough=[{'ELEMENTS': 1}]),   # kissat: out of memory at 17 GB, cadical: no verdict in 600 s
- dict(name='conv2d_el', src='harnesses/C17_conv.c', func='h_conv2d_el', kernels=['C17_conv_el'], unwind=8, optional=True, timeout=1800, mem_gb=16,
-      bounds='view::conv2d ELEMENT, constant shapes input (1,1,2,2) * weight (1,1,2,2)', quick=[], thorough=[{'ELEMENTS': 1}]),
-] + [dict(name='conv1d_el_' + n, src='harnesses/C17_conv.c', func='h_conv1d_el_' + n, kernels=['C17_conv_el'], unwind=8, optional=True, timeout=1200, mem_gb=14,
-          bounds='view::conv1d ELEMENT, constant shapes: ' + b, quick=[], thorough=[{'ELEMENTS': 1}])
-     for n, b in [('p1', 'padding 1, input (1,1,2) * weight (1,1,2)'), ('d2', 'dilation 2, input (1,1,3) * weight (1,1,2)'), ('bias', 'bias, input (1,1,3) * weight (1,1,2) + (1)'),
-                  ('g2', 'groups 2, input (1,2,2) * weight (2,1,2)')]] + [
- dict(name='conv1d_el_s2', src='harnesses/C17_conv.c', func='h_conv1d_el_s2', kernels=['C17_conv_el'], unwind=8, optional=True, timeout=1200, mem_gb=14,
-      bounds='view::conv1d ELEMENT with stride 2, constant shapes input (1,1,4) * weight (1,1,2)', quick=[], thorough=[{'ELEMENTS': 1}]),
- dict(name='conv1d_el_c2', src='harnesses/C17_conv.c', func='h_conv1d_el_c2', kernels=['C17_conv_el'], unwind=8, optional=True, timeout=1200, mem_gb=14,
-      bounds='view::conv1d ELEMENT with two input channels, constant shapes input (1,2,2) * weight (1,2,2)', quick=[], thorough=[{'ELEMENTS': 1}]),
+ # conv ELEMENTS at constant tiny shapes (fixed arrays), uint8 data + output index symbolic. Measured on a loaded machine (minisat): plain 294-393 s / 9.4 GB, stride 2 294 s / 9.8 GB,
+ # two channels 212 s / 10 GB, bias 451 s / 10.3 GB, dilation 2 459 s / 15.3 GB; padding 1: no verdict in 1200 s (optional); groups 2: killed at 16.3 GB (not listed as a query); kissat: out of memory at 17 GB; cadical: no verdict in 600 s.
+] + [dict(name='conv1d_el' + sfx, src='harnesses/C17_conv.c', func='h_conv1d_el' + sfx, kernels=['C17_conv_el'], unwind=8, timeout=1800, mem_gb=16, optional=opt,
+          bounds='view::conv1d ELEMENT, constant shapes: ' + b + '; uint8 data and the output index symbolic', quick=[], thorough=[{'ELEMENTS': 1}])
+     for sfx, b, opt in [('', 'input (1,1,3) * weight (1,1,2), defaults', False), ('_s2', 'stride 2, input (1,1,4) * weight (1,1,2)', False), ('_c2', 'two input channels, input (1,2,2) * weight (1,2,2)', False),
+                         ('_bias', 'bias, input (1,1,3) * weight (1,1,2) + (1)', False), ('_d2', 'dilation 2, input (1,1,3) * weight (1,1,2) (459 s / 15.3 GB measured)', False), ('_p1', 'padding 1, input (1,1,2) * weight (1,1,2)', True)]] + [
+ # conv2d_el (h_conv2d_el: input (1,1,2,2) * weight (1,1,2,2)) is not listed as a query: cbmc was killed at 20.8 GB after 507 s (unwind 12; unwind 8 is too small).
 ]
 ST = 'STRUCTURAL (shape only, no float arithmetic evaluated): hybrid float operands with symbolic extents 1..MAXE; '
 HARNESSES += [dict(name=n + '_shape', src='harnesses/C17_shapes.c', func='h_' + n + '_shape', kernels=['C17_shapes'], unwind=8, bounds=ST + b, quick=q, thorough=t, timeout=1200 if not q else 300)
@@ -65,20 +59,25 @@ HARNESSES += [dict(name=n + '_shape', src='harnesses/C17_shapes.c', func='h_' + 
                            ('group_norm', '(N,C,H,W) input, groups dividing C', [], [{'MAXE': 2}]), ('layer_norm', '(N,C,H,W) input, normalized shape (H,W)', [], [{'MAXE': 3}])]]
 _W = lambda *v: ['0x%x' % (x & (2**64 - 1)) for x in v]
 # TEMPORARY (to be moved into known_findings.json or fixed by the lead): solver counterexamples replayed natively
+_BATCH = ('view::conv1d(input (2,1,2), weight (2,1,1), stride 2) is Nothing (PyTorch: shape (2,2,1)); with padding the same call throws std::bad_array_new_length. index::conv_reshape_input '
+          '(convnd.hpp:12-46) sets every leading extent to 1, i.e. drops the batch extent, so the reshape of the input fails for any batch size > 1 (conv1d and conv2d). Region: N > 1.')
+_DIL = ('view::conv2d(input (1,1,4,1), weight (1,1,3,1), stride (2,2), dilation (1,2)) is Nothing (PyTorch: shape (1,1,1,1)): conv_window_axis is (-1,-2) while conv_expand_spacing keeps the '
+        'order of the dilation pair, so dilation[0] is applied to the width and dilation[1] to the height (kernel_size is reversed consistently, dilation is not). Region: dilation[0] != dilation[1].')
 PENDING_FINDINGS = [
- dict(id='C17-conv-batch', harness='conv1d_shape_nopad', exclude_define='KF_C17_CONV_BATCH', witness_inputs=_W(2, 1, 2, 2, 1, 2, 0, 1),
-      also_harnesses=['conv2d_shape_nopad (witness 0x2 0x1 0x3 0x4 0x2 0x3 0x3 0x2 0x0 0x1 0x2 0x0 0x1)', 'conv1d_shape', 'conv2d_shape'],
-      what='view::conv1d(input (2,1,2), weight (2,1,1), stride 2) is Nothing (PyTorch: shape (2,2,1)); with padding the same call throws std::bad_array_new_length. index::conv_reshape_input '
-           '(convnd.hpp:12-46) sets every leading extent to 1, i.e. drops the batch extent, so the reshape of the input fails for any batch size > 1 (conv1d and conv2d). Region: N > 1.'),
- dict(id='C17-conv2d-dilation-order', harness='conv2d_shape_nopad', exclude_define='KF_C17_CONV2D_DILATION_ORDER', witness_inputs=_W(1, 1, 4, 1, 1, 3, 1, 2, 0, 1, 2, 0, 2),
-      also_harnesses=['conv2d_shape'],
-      what='view::conv2d(input (1,1,4,1), weight (1,1,3,1), stride (2,2), dilation (1,2)) is Nothing (PyTorch: shape (1,1,1,1)): conv_window_axis is (-1,-2) while conv_expand_spacing keeps the '
-           'order of the dilation pair, so dilation[0] is applied to the width and dilation[1] to the height (kernel_size is reversed consistently, dilation is not). Region: dilation[0] != dilation[1].'),
+ dict(id='C17-conv-batch', harness='conv1d_shape_nopad', exclude_define='KF_C17_CONV_BATCH', witness_config={}, witness_inputs=_W(2, 1, 2, 2, 1, 2, 0, 1), what=_BATCH),
+ dict(id='C17-conv-batch', harness='conv1d_shape', exclude_define='KF_C17_CONV_BATCH', witness_config={}, witness_inputs=_W(2, 1, 2, 2, 1, 2, 0, 1), what='same inputs through the kernel with padding (padding 0)'),
+ dict(id='C17-conv-batch', harness='conv2d_shape_nopad', exclude_define='KF_C17_CONV_BATCH', witness_config={}, witness_inputs=_W(2, 1, 3, 4, 2, 3, 3, 2, 0, 1, 2, 0, 1),
+      what='same defect in conv2d: input (2,1,3,4), weight (2,1,3,3), stride (2,2), dilation (1,1)'),
+ dict(id='C17-conv-batch', harness='conv2d_shape', exclude_define='KF_C17_CONV_BATCH', witness_config={}, witness_inputs=_W(2, 1, 3, 3, 2, 3, 3, 2, 0, 1, 2, 0, 1),
+      what='same defect in conv2d with padding (0,0): input (2,1,3,3), weight (2,1,3,3)'),
+ dict(id='C17-conv2d-dilation-order', harness='conv2d_shape_nopad', exclude_define='KF_C17_CONV2D_DILATION_ORDER', witness_config={}, witness_inputs=_W(1, 1, 4, 1, 1, 3, 1, 2, 0, 1, 2, 0, 2), what=_DIL),
+ dict(id='C17-conv2d-dilation-order', harness='conv2d_shape', exclude_define='KF_C17_CONV2D_DILATION_ORDER', witness_config={}, witness_inputs=_W(1, 1, 3, 1, 1, 2, 1, 1, 0, 1, 1, 0, 2),
+      what='same defect: input (1,1,3,1), weight (1,1,2,1), stride (1,1), padding (0,0), dilation (1,2): PyTorch H_out 2, nmtools 1'),
 ]
 OUTSIDE = [
- 'conv1d/conv2d ELEMENTS: only the smallest constant shape of conv1d, input (1,1,3) * weight (1,1,2) with default stride/padding/dilation, uint8 data, is decided: "holds" in 294-393 s / 9.4 GB '
- '(minisat; thorough query conv1d_el; kissat: out of memory at 17 GB, cadical: no verdict in 600 s); conv2d (1,1,3,3)*(1,1,2,2): no verdict in 1700 s / 16 GB in the study. '
- 'Elements of conv with stride/padding/dilation/groups/bias, more channels or larger extents are not claimed',
+ 'conv ELEMENTS beyond five constant tiny conv1d cases (thorough tier, ~4-8 min and 10-15 GB each, minisat): plain (1,1,3)*(1,1,2), stride 2 (1,1,4)*(1,1,2), two channels (1,2,2)*(1,2,2), bias (1,1,3)*(1,1,2)+(1), dilation 2 (1,1,3)*(1,1,2) hold. '
+ 'Not reached: padding 1 (no verdict in 1200 s), groups 2 (process killed at 16.3 GB), conv2d (1,1,2,2)*(1,1,2,2) (process killed at 20.8 GB after 507 s; (1,1,3,3)*(1,1,2,2): no verdict in 1700 s / 16 GB in the study); kissat runs out of memory (17 GB), cadical gives no verdict in 600 s. '
+ 'Conv elements with symbolic or larger shapes are not claimed',
  'conv groups > 1 and bias at the shape level; conv shapes WITH padding only in the thorough tier (convnd makes the pad widths a heap-backed list: 220 s / 6.5 GB per query)',
  'linear / bilinear ELEMENTS (tensordot + bias pipeline: no verdict in 600 s at n=1,in=2,out=2 in the study); their result shapes are checked structurally',
  'softmax/softmin, batch/layer/instance/group_norm, pairwise_distance, cosine_similarity ELEMENTS: "within floating-point tolerance" over exp/sqrt/division is not decidable here; only result shapes (structural)',
@@ -92,6 +91,7 @@ CLAIM = dict(
       'stride 1..3, both ceil modes (symbolic). view::max_pool2d and avg_pool2d return PyTorch\'s shape and the max / mean over the window truncated at the border for every enumerated (H,W,kernel,stride,ceil) '
       'with all uint8 data and the output index symbolic. The output shape of view::conv1d / conv2d through the real convnd pipeline equals floor((n + 2p - d(k-1) - 1)/s) + 1 for symbolic extents, kernel, '
       'stride, dilation (and padding in the thorough tier), batch 1 and equal dilation per axis (two findings outside); sliding_window, expand and pad index maps equal their definitions; '
-      'result shapes of softmax/softmin/linear/distances (and the norms in the thorough tier) are the input-derived shapes (structural).',
+      'result shapes of softmax/softmin/linear/distances (and the norms in the thorough tier) are the input-derived shapes (structural). Thorough tier only: conv1d ELEMENTS equal the cross-correlation sum '
+      '(mod 256, uint8 data and output index symbolic) for five constant tiny cases: plain, stride 2, two input channels, bias, dilation 2.',
  note='Pooling elements: quick = 12 tuples incl. overhanging ceil windows and the formerly failing (4,4),k=(2,1),s=(2,2),ceil case (now repaired in /repo: no exclusion needed); thorough = all H,W 1..5, k 1..3, s 1..3, ceil 0/1 (864 tuples). '
       'Trusted: clang-14 -O1 lowering, engine/ll2c.py, CBMC; validated per run by gate and witness assertions.')
